@@ -139,7 +139,7 @@ def gen_init(rng, bucket):
         return files, spec
     # malformed: no map spec, the model comparison alone
     kind = rng.choice(["empty-loose", "three-field", "crlf", "dup", "junk-hash", "no-final-lf", "comment-mid", "empty-head",
-                       "spaces", "short-hash", "upper-hash", "one-field", "sha256-len", "blank-lines", "sym-packed"])
+                       "spaces", "short-hash", "upper-hash", "one-field", "sha256-len", "blank-lines", "sym-packed", "head-dir", "long-hash"])
     h = BLOBS[:4]
     if kind == "empty-loose":
         files[A] = ""
@@ -180,6 +180,12 @@ def gen_init(rng, bucket):
         files["packed-refs"] = "\n%s %s\n\n\r\n%s %s\n" % (h[0], A, h[1], B)
     elif kind == "sym-packed":
         files["packed-refs"] = "ref:%s %s\n" % (A, B)
+    elif kind == "head-dir":
+        del files[HEAD]
+        files["HEAD/x"] = h[0] + "\n"          # HEAD is a directory
+    elif kind == "long-hash":
+        files[A] = h[0] + "abcdef0123\n"        # 50 hex digits: 25 bytes kept, 20 printed
+        files["packed-refs"] = "%s %s\n" % (h[1] + "ff" * 20, B)
     return files, None
 
 
@@ -255,8 +261,8 @@ class Main(Suite):
     name = "main"
     go_cmd = "c15"
     coq_imports = "From GoGit Require Import Model.RefStore."
-    quick_n = 170
-    thorough_n = 6000
+    quick_n = 120
+    thorough_n = 3000
     coq_chunk = 25
 
     def gen(self, rng, n, tier):
@@ -336,6 +342,7 @@ class Main(Suite):
                     if not df_conflict(ever, name):
                         return where + ": refused by the filesystem without any directory/file conflict in the history", m, tags
                     continue
+                ever.add(name)          # the file (possibly empty) and its directories exist from here on
                 if old is None:
                     want = "( ok )"
                 else:
